@@ -32,8 +32,9 @@ MC = {
     # replication / commit: client writes, heartbeats, loss + duplication, one crash
     "repl-q": dict(Node="{1,2,3}", MaxTerm=3, MaxLog=2, MaxMsgs=2, Cap=1,
                    Faults=["Crash", "Drop", "Dup", "Client", "Heartbeat"], MaxCrash=1, MaxDrop=1),
-    "repl-t": dict(Node="{1,2,3}", MaxTerm=3, MaxLog=3, MaxMsgs=3, Cap=1,
-                   Faults=["Crash", "Drop", "Dup", "Client", "Heartbeat"], MaxCrash=1, MaxDrop=1),
+    # (MaxMsgs = 3 does not finish in 50 minutes; this one: 5.0 M distinct states, 21 M generated, 3 min 14 s, 16 workers)
+    "repl-t": dict(Node="{1,2,3}", MaxTerm=3, MaxLog=3, MaxMsgs=2, Cap=1,
+                   Faults=["Crash", "Drop", "Dup", "Client", "Heartbeat"], MaxCrash=1, MaxDrop=2),
 }
 
 MC["member-q"] = dict(Node="{1,2,3}", MaxTerm=3, MaxLog=3, MaxMsgs=2, Cap=100,
